@@ -572,3 +572,44 @@ def rule_py_highlevel_returns(rep, floor=40):
                 ok = under or "maybe_wrap" in s or "highlevel" in s
                 r.check(ok, "%s:%s#return%d" % (rel, fd.name, k), m.where(ret), "%s in %s returns `%s` without consulting highlevel (and behavior)" % (fd.name, rel, s[:70]), detail="maybe_wrap / highlevel= / under a highlevel test")
     return r.done()
+
+
+def rule_py_defassign(rep, floor=800):
+    """definite assignment + comprehension variables"""
+    from . import pydefassign
+    r = rep.rule("DEAD.py-unbound", "(a) in every function of the Python layer a local is read only where it is assigned on all paths, under the same condition it was assigned under, or after a loop that binds it "
+                 "(tabled: loops over collections that are never empty); (b) the loop variable of a comprehension or generator expression is used in its element or condition - "
+                 "`any(f(n) for x in xs)` tests something else than the items it iterates", floor=floor)
+    table = load_table("py_unbound_exceptions.json")
+    for rel in [x for x in pf.all_modules() if "generated_parser" not in x]:
+        m = pf.module(rel)
+        hits = {}
+        for q, name, line in pydefassign.possibly_undefined(m.tree):
+            hits[(q, name)] = line
+        for q, f in sorted(m.funcs.items()):
+            bad = [(n_, l) for (q2, n_), l in hits.items() if q2 == q]
+            key0 = "%s:%s" % (rel, q)
+            if not bad:
+                r.ok(key0)
+                continue
+            for n_, l in bad:
+                key = "%s:%s" % (key0, n_)
+                if key in table:
+                    r.excepted(key, table[key])
+                    r.ok(key)
+                else:
+                    r.fail(key, "src/awkward/%s:%d" % (rel, l), "%s in %s reads local `%s` on a path on which it has not been assigned (UnboundLocalError)" % (q, rel, n_))
+        k = 0
+        for c in ast.walk(m.tree):
+            if not isinstance(c, (ast.ListComp, ast.SetComp, ast.GeneratorExp, ast.DictComp)):
+                continue
+            for g in c.generators:
+                names = {t.id for t in ast.walk(g.target) if isinstance(t, ast.Name)}
+                parts = ([c.key, c.value] if isinstance(c, ast.DictComp) else [c.elt]) + [i for gg in c.generators for i in gg.ifs] + [gg.iter for gg in c.generators if gg is not g]
+                used = {x.id for p_ in parts for x in ast.walk(p_) if isinstance(x, ast.Name)}
+                k += 1
+                un = sorted(v for v in names if v not in used and not v.startswith("_"))
+                # a tuple target of which at least one component is used is a projection (`[a for a, b in pairs]`), not a slip
+                partial = len(names) > 1 and len(un) < len(names)
+                r.check(not un or partial, "%s#comprehension@%s" % (rel, ast.unparse(c)[:40]), m.where(c), "in %s the comprehension `%s` never uses its loop variable %s" % (rel, ast.unparse(c)[:70], un), detail="loop variable used")
+    return r.done()
